@@ -15,9 +15,10 @@ EXTENDS PartitionerOps, TLC, Json
 CONSTANTS
   Ctors,         \* constructors explored: subset of {"manual","random","roundrobin","hash","refhash","customhash","custom"}
   Ns,            \* partition counts
-  HMode,         \* "full": HFull(n) and the whole FNV table; "small": HSmall(n) and two FNV keys
+  HMode,         \* "full": HFull(n) and the whole FNV table; "small": HSeq(n) and two FNV keys
   MaxCalls,      \* calls per behaviour
   FallbackAsIs,  \* TRUE: WithCustomFallbackPartitioner as on the pinned tree (hp.random = hp)
+  EmptyKeyIsKey, \* TRUE (the code): MessageRequiresConsistency is Key != nil; FALSE: a variant that also wants bytes in the key
   Randomized,    \* TRUE (simulation only): every step draws ONE call at random instead of branching over all
   EmitCases
 
@@ -40,14 +41,14 @@ Key(k, h, name) == [k |-> k, h |-> h, name |-> name]
 NilKey == Key("nil", 0, "")
 Range1(s) == {s[i] : i \in DOMAIN s}
 FnvKeys == IF HMode = "full" THEN Range1(FnvTable) ELSE {FnvTable[1], FnvTable[2]}
-Hs(n) == IF HMode = "full" THEN HFull(n) ELSE HSmall(n)
+Hs(n) == IF HMode = "full" THEN HFull(n) ELSE HSeq(n)
 
 \* keys a message may carry for configuration c and partition count n
 Keys(c, n) ==
   IF ~IsHash(c) THEN {NilKey, Key("h", 1, "")}
   ELSE IF c.hashfn
-       THEN {NilKey, Key("empty", FakeEmpty, "")} \cup {Key("h", h, "") : h \in Hs(n)}
-       ELSE {NilKey, Key("empty", FnvEmpty, "")} \cup {Key("fnv", e.h, e.name) : e \in FnvKeys}
+       THEN {NilKey} \cup {Key(e, FakeEmpty, "") : e \in EmptyKinds} \cup {Key("h", h, "") : h \in Hs(n)}
+       ELSE {NilKey} \cup {Key(e, FnvEmpty, "") : e \in EmptyKinds} \cup {Key("fnv", e.h, e.name) : e \in FnvKeys}
 \* ProducerMessage.Partition, only read by the manual partitioner
 Parts(c, n) == IF c.ctor = "manual" THEN {-1, 0, n - 1, n} ELSE {0}
 Msg(key, part) == [key |-> key, part |-> part]
@@ -72,6 +73,13 @@ Res(m, n) ==
          THEN (IF cfg.fb /\ FallbackAsIs THEN Crash ELSE InRangeOnly)   \* p.random.Partition(...)
          ELSE Exact(HashRes(m.key.h, n))
 
+\* RequiresConsistency() / MessageRequiresConsistency(m): what the instance tells the producer about m.
+\* The hash partitioners are DynamicConsistencyPartitioners: consistency exactly for the messages they hash.
+Req(m) ==
+  CASE cfg.ctor = "manual" -> TRUE
+    [] cfg.ctor \in {"random", "roundrobin"} -> FALSE
+    [] OTHER -> m.key.k # "nil" /\ (EmptyKeyIsKey \/ m.key.k \notin EmptyKinds)
+
 Init ==
   /\ cfg \in Configs
   /\ cursor = 0
@@ -80,7 +88,7 @@ Init ==
   /\ hist = <<>>
 
 Call(m, n) ==
-  /\ hist' = Append(hist, [msg |-> m, n |-> n, exp |-> Res(m, n)])
+  /\ hist' = Append(hist, [msg |-> m, n |-> n, exp |-> Res(m, n), req |-> Req(m)])
   /\ cursor' = IF cfg.ctor = "roundrobin" THEN RRRet(n) + 1 ELSE cursor
   \* p.hasher.Reset(); p.hasher.Write(bytes): the hasher holds exactly this key afterwards
   /\ hbuf' = IF IsHash(cfg) /\ m.key.k # "nil" THEN <<m.key.h>> ELSE hbuf
@@ -116,6 +124,9 @@ RefIsJava ==
 LegacyIsAbsMod ==
   \A i \in DOMAIN hist : LET e == hist[i] IN
      (Keyed(e) /\ ~cfg.abs) => e.exp = Exact(AbsMod(e.msg.key.h, e.n))
+\* a message whose key the partitioner hashes (any non-nil key, also one without bytes) requires consistency:
+\* otherwise the producer would take the hash modulo the writable partitions only
+HashedRequiresConsistency == \A i \in DOMAIN hist : Keyed(hist[i]) => hist[i].req
 ManualOwn ==
   \A i \in DOMAIN hist : cfg.ctor = "manual" => hist[i].exp = Exact(hist[i].msg.part)
 \* round-robin: any numPartitions consecutive calls with that same count visit every partition
@@ -129,7 +140,7 @@ TypeOK == cursor \in 0 .. 17 /\ dead \in BOOLEAN
 
 (* ---------- role 2: emit every maximal behaviour as one JSON case ---------- *)
 KeyJson(k) == [k |-> k.k, h |-> k.h, name |-> k.name]
-CallJson(e) == [key |-> KeyJson(e.msg.key), part |-> e.msg.part, n |-> e.n, xk |-> e.exp.k, xv |-> e.exp.v]
+CallJson(e) == [key |-> KeyJson(e.msg.key), part |-> e.msg.part, n |-> e.n, xk |-> e.exp.k, xv |-> e.exp.v, xreq |-> e.req]
 Emit ==
   (EmitCases /\ Len(hist) = MaxCalls) =>
      PrintT(<<"CASE", ToJson([fam |-> "part", cfg |-> cfg, calls |-> [i \in 1 .. Len(hist) |-> CallJson(hist[i])]])>>)
